@@ -1285,7 +1285,8 @@ macro "clean_simp" : tactic => `(tactic|
 syntax "cwf" : tactic
 macro_rules | `(tactic| cwf) => `(tactic| first
   | assumption
-  | exact CleanCtx.w (by assumption))
+  | exact CleanCtx.w (by assumption)
+  | fail)
 
 /-- `CleanConn ?cn` -/
 syntax "cconn" : tactic
@@ -1294,27 +1295,31 @@ macro_rules | `(tactic| cconn) => `(tactic| first
   | exact cc_conn (by assumption) _
   | exact cw_conn? (by cwf) (by assumption)
   | exact setName_clean (by first | assumption | exact cc_conn (by assumption) _) (by assumption)
-  | exact setNick_clean (by first | assumption | exact cc_conn (by assumption) _) (by assumption))
+  | exact setNick_clean (by first | assumption | exact cc_conn (by assumption) _) (by assumption)
+  | fail)
 
 /-- `CleanUser ?u` -/
 syntax "cuser" : tactic
 macro_rules | `(tactic| cuser) => `(tactic| first
   | assumption
   | exact cw_user' (by assumption) (by cwf)
-  | exact cw_memUser' (by assumption) (by cwf))
+  | exact cw_memUser' (by assumption) (by cwf)
+  | fail)
 
 /-- `CleanChan ?ch` -/
 syntax "cchan" : tactic
 macro_rules | `(tactic| cchan) => `(tactic| first
   | assumption
   | exact cw_chan' (by assumption) (by cwf)
-  | exact cw_memChan' (by assumption) (by cwf))
+  | exact cw_memChan' (by assumption) (by cwf)
+  | fail)
 
 /-- `CleanTopic ?t` -/
 syntax "ctopic" : tactic
 macro_rules | `(tactic| ctopic) => `(tactic| first
   | assumption
-  | exact CleanChan.topic' (by assumption) (by cchan))
+  | exact CleanChan.topic' (by assumption) (by cchan)
+  | fail)
 
 /-- `CleanMap ?P ?m` -/
 syntax "cmap" : tactic
@@ -1324,13 +1329,15 @@ macro_rules | `(tactic| cmap) => `(tactic| first
   | exact CleanWorld.channels (by cwf)
   | exact CleanWorld.histories (by cwf)
   | exact CleanChan.users (by cchan)
-  | exact CleanChan.banInfo (by cchan))
+  | exact CleanChan.banInfo (by cchan)
+  | fail)
 
 /-- `CleanModes ?m` -/
 syntax "cmodes" : tactic
 macro_rules | `(tactic| cmodes) => `(tactic| first
   | assumption
-  | exact CleanChan.modes (by cchan))
+  | exact CleanChan.modes (by cchan)
+  | fail)
 
 /-- `CleanL ?l` -/
 syntax "clist" : tactic
@@ -1355,7 +1362,8 @@ macro_rules | `(tactic| clist) => `(tactic| first
   | exact CleanMap.keys (by cmap)
   | exact CleanMsg.params (by assumption)
   | exact chunks_cleanL' (by assumption) (by clist)
-  | exact CleanL.filter (by clist) _)
+  | exact CleanL.filter (by clist) _
+  | fail)
 
 /-- `CleanO ?o` -/
 syntax "copt" : tactic
@@ -1371,7 +1379,8 @@ macro_rules | `(tactic| copt) => `(tactic| first
   | exact CleanCfg.adminInfo2 (by assumption)
   | exact CleanCfg.adminEmail (by assumption)
   | exact CleanMsg.source (by assumption)
-  | exact CleanL.head? (by clist))
+  | exact CleanL.head? (by clist)
+  | fail)
 
 /-- an atomic `Clean s` goal: a stored / configured / received string -/
 syntax "ca" : tactic
@@ -1654,5 +1663,1357 @@ theorem cc_processQuit {cfg : Cfg} {c : Nat} {x : Ctx} (hcfg : CleanCfg cfg) (hx
   unfold processQuit
   dsimp only
   cc
+
+/-! ## 6. HChannel -/
+
+theorem newOnUserJoin_clean {nick : Str} (hn : Clean nick) : CleanChan (Channel.newOnUserJoin nick) := by
+  unfold Channel.newOnUserJoin
+  refine CleanChan.mk (by intro t h; cases h) (CleanModes.mk ?_ ?_ ?_ ?_ ?_ ?_ ?_ ?_ ?_)
+    (CleanDefault.mk ?_ ?_ ?_ ?_ ?_) cleanMap_nil (CleanMap.cons hn trivial cleanMap_nil) <;>
+    simp [hn]
+
+theorem Channel.addUser_clean {ch : Channel} {nick : Str} (hch : CleanChan ch) (hn : Clean nick) :
+    CleanChan (ch.addUser nick) := by
+  unfold Channel.addUser
+  dsimp only
+  cc
+
+macro_rules | `(tactic| cchan) => `(tactic| first |
+  exact Channel.addUser_clean (by first | assumption | exact cw_chan' (by assumption) (by cwf)) (by assumption) | fail)
+
+theorem Channel.removeUser_clean {ch ch' : Channel} {nick : Str} (hch : CleanChan ch)
+    (h : ch.removeUser nick = some ch') : CleanChan ch' := by
+  unfold Channel.removeUser at h
+  split at h
+  · cases h
+  · cases h
+    cc
+
+macro_rules | `(tactic| cchan) => `(tactic| first |
+  exact Channel.removeUser_clean (by first | assumption | exact cw_chan' (by assumption) (by cwf)) (by assumption) | fail)
+
+theorem removeUserFromChannel_clean {w : World} {channel nick : Str} (h : CleanWorld w) :
+    CleanWorld (w.removeUserFromChannel channel nick) := by
+  unfold World.removeUserFromChannel
+  dsimp only
+  cc
+macro_rules | `(tactic| cc_step) => `(tactic| with_reducible refine removeUserFromChannel_clean ?_)
+
+
+theorem foldl_removeUserFromChannel_clean {nick : Str} : ∀ {chs : List Str} {w : World}, CleanWorld w →
+    CleanWorld (chs.foldl (fun w chn => w.removeUserFromChannel chn nick) w)
+  | [], _, h => h
+  | _ :: chs, _, h => by
+    simp only [List.foldl_cons]
+    exact foldl_removeUserFromChannel_clean (removeUserFromChannel_clean h)
+
+theorem removeUser_clean {w : World} {nick : Str} (h : CleanWorld w) : CleanWorld (w.removeUser nick) := by
+  unfold World.removeUser
+  split
+  · exact h
+  · rename_i user hl
+    have hu := cw_user h hl
+    have hk := h.users.key_of_lookup hl
+    dsimp only
+    refine pushHistory_clean (foldl_removeUserFromChannel_clean ?_) hk hu.history
+    cc
+macro_rules | `(tactic| cc_step) => `(tactic| with_reducible refine removeUser_clean ?_)
+
+/-! ### NAMES -/
+
+theorem cc_namesLines {cfg : Cfg} {cn : Conn} {chname : Str} {ch : Channel} {users : Map User} {x : Ctx}
+    (hcfg : CleanCfg cfg) (hcn : CleanConn cn) (hn : Clean chname) (hch : CleanChan ch)
+    (hx : CleanCtx x) : CleanCtx (namesLines cfg cn chname ch users x) := by
+  unfold namesLines
+  dsimp only
+  cc
+  all_goals
+    intro p hp
+    have hm := mem_chunks ‹_ ∈ chunks _ _› hp
+    simp only [List.mem_filterMap, List.mem_map] at hm
+    obtain ⟨o, ⟨a, ha, rfl⟩, ho⟩ := hm
+    have hka : Clean a.1 := (hch.users a ha).1
+    split at ho
+    · rename_i p' n' heq
+      split at ho
+      · cases ho
+      · cases ho
+        repeat' split at heq
+        all_goals first
+          | (cases heq; done)
+          | (cases heq; exact ⟨prefixStr_clean _ _, hka⟩)
+          | (cases heq; exact ⟨clean_nil, clean_nil⟩)
+    · cases ho
+
+macro_rules | `(tactic| cc_step) => `(tactic| with_reducible refine cc_namesLines ‹CleanCfg _› ?_ ?_ ?_ ?_)
+
+theorem cc_sendNamesFromChannel {cfg : Cfg} {c : Nat} {chname : Str} {ch : Channel} {theEnd : Bool}
+    {x : Ctx} (hcfg : CleanCfg cfg) (hn : Clean chname) (hch : CleanChan ch) (hx : CleanCtx x) :
+    CleanCtx (sendNamesFromChannel cfg c chname ch theEnd x) := by
+  have hcn := cc_conn hx c
+  unfold sendNamesFromChannel
+  dsimp only
+  cc
+macro_rules | `(tactic| cc_step) => `(tactic| with_reducible refine cc_sendNamesFromChannel ‹CleanCfg _› ?_ ?_ ?_)
+
+theorem cc_processNames {cfg : Cfg} {c : Nat} {channels : List Str} {x : Ctx} (hcfg : CleanCfg cfg)
+    (hchs : CleanL channels) (hx : CleanCtx x) : CleanCtx (processNames cfg c channels x) := by
+  have hcn := cc_conn hx c
+  unfold processNames
+  dsimp only
+  cc
+
+/-! ### JOIN -/
+
+theorem joinCheckExisting_clean {ch : Channel} {chname : Str} {key : Option (Option Str)}
+    {source nick client : Str} {invitedTo : KSet} (hn : Clean chname) (hc : Clean client) :
+    CleanL (joinCheckExisting ch chname key source nick client invitedTo).2 := by
+  unfold joinCheckExisting
+  dsimp only
+  repeat' split
+  all_goals simp only [cleanL_append, cleanL_cons, cleanL_nil, ErrBadChannelKey475_clean,
+    ErrBannedFromChan474_clean, ErrInviteOnlyChan473_clean, ErrChannelIsFull471_clean, hn, hc,
+    and_self]
+
+theorem joinDecide_clean {cfg : Cfg} {w : World} {cn : Conn} {nick : Str} {invitedTo : KSet}
+    (hcn : CleanConn cn) : ∀ {chs : List Str} {keys : List (Option Str)} {cnt : Nat}, CleanL chs →
+      CleanL (joinDecide cfg w cn nick invitedTo chs keys cnt).2.1
+  | [], _, _, _ => by simp [joinDecide]
+  | chn :: rest, keys, cnt, h => by
+    have h' := cleanL_cons.1 h
+    have hcl := clientName_clean hcn
+    unfold joinDecide
+    dsimp only
+    have ih := fun keys cnt => @joinDecide_clean cfg w cn nick invitedTo hcn rest keys cnt h'.2
+    refine cleanL_append.2 ⟨?_, ih _ _⟩
+    have hje : ∀ ch key, CleanL (joinCheckExisting ch chn key cn.source nick cn.clientName invitedTo).2 :=
+      fun _ _ => joinCheckExisting_clean h'.1 hcl
+    repeat' split
+    all_goals simp only [cleanL_append, cleanL_cons, cleanL_nil, ErrTooManyChannels405_clean, hje, hcl,
+      h'.1, and_self]
+
+
+theorem joinApply_clean {nick : Str} (hn : Clean nick) : ∀ {ds : List (Bool × Bool)} {chs : List Str}
+    {w : World}, CleanL chs → CleanWorld w → CleanWorld (joinApply nick ds chs w)
+  | [], _, _, _, h => by unfold joinApply; exact h
+  | _ :: _, [], _, _, h => by unfold joinApply; exact h
+  | (join, create) :: ds, chn :: chs, w, hc, h => by
+    have hc' := cleanL_cons.1 hc
+    have hchn := hc'.1
+    unfold joinApply
+    dsimp only
+    refine joinApply_clean hn hc'.2 ?_
+    have hnew := newOnUserJoin_clean hn
+    cc
+
+theorem cc_joinAnnounce {cfg : Cfg} {c : Nat} {nick : Str} (hcfg : CleanCfg cfg) :
+    ∀ {ds : List (Bool × Bool)} {chs : List Str} {x : Ctx}, CleanL chs → CleanCtx x →
+      CleanCtx (joinAnnounce cfg c nick ds chs x)
+  | [], _, _, _, h => by unfold joinAnnounce; exact h
+  | _ :: _, [], _, _, h => by unfold joinAnnounce; exact h
+  | (join, create) :: ds, chn :: chs, x, hc, hx => by
+    have hc' := cleanL_cons.1 hc
+    have hchn := hc'.1
+    have hcn := cc_conn hx c
+    unfold joinAnnounce
+    dsimp only
+    refine cc_joinAnnounce hcfg hc'.2 ?_
+    cc
+
+macro_rules | `(tactic| cc_step) => `(tactic| with_reducible refine cc_joinAnnounce ‹CleanCfg _› ?_ ?_)
+macro_rules | `(tactic| cc_step) => `(tactic| with_reducible refine joinApply_clean ?_ ?_ ?_)
+macro_rules | `(tactic| clist) => `(tactic| first | exact joinDecide_clean (by cconn) (by assumption) | fail)
+
+theorem cc_processJoin {cfg : Cfg} {c : Nat} {channels : List Str} {keys : Option (List Str)} {x : Ctx}
+    (hcfg : CleanCfg cfg) (hchs : CleanL channels) (hx : CleanCtx x) :
+    CleanCtx (processJoin cfg c channels keys x) := by
+  have hcn := cc_conn hx c
+  unfold processJoin
+  dsimp only
+  cc
+
+/-! ### PART / TOPIC / LIST / INVITE / KICK -/
+
+macro_rules | `(tactic| ca) => `(tactic| first | exact cleanO_some.1 (by assumption) | fail)
+macro_rules | `(tactic| cc_step) => `(tactic|
+  (show ∀ t : Topic, _ = some t → CleanTopic t; intro _ h; cases h))
+
+@[simp] theorem reply_w {x : Ctx} {cfg : Cfg} {t : Str} : (x.reply cfg t).w = x.w := rfl
+@[simp] theorem replySrc_w {x : Ctx} {src t : Str} : (x.replySrc src t).w = x.w := rfl
+
+theorem cc_processPart {cfg : Cfg} {c : Nat} {channels : List Str} {reason : Option Str} {x : Ctx}
+    (hcfg : CleanCfg cfg) (hchs : CleanL channels) (hr : CleanO reason) (hx : CleanCtx x) :
+    CleanCtx (processPart cfg c channels reason x) := by
+  have hcn := cc_conn hx c
+  unfold processPart
+  dsimp only
+  cc
+
+theorem cc_processTopic {cfg : Cfg} {c : Nat} {channel : Str} {topic : Option Str} {msg : Message}
+    {x : Ctx} (hcfg : CleanCfg cfg) (hch : Clean channel) (ht : CleanO topic) (hm : CleanMsg msg)
+    (hx : CleanCtx x) : CleanCtx (processTopic cfg c channel topic msg x) := by
+  have hcn := cc_conn hx c
+  unfold processTopic
+  dsimp only
+  cc
+
+theorem cc_listLine {cfg : Cfg} {client chn : Str} {ch : Channel} {x : Ctx} (hcfg : CleanCfg cfg)
+    (hc : Clean client) (hn : Clean chn) (hch : CleanChan ch) (hx : CleanCtx x) :
+    CleanCtx (listLine cfg client chn ch x) := by
+  unfold listLine
+  cc
+macro_rules | `(tactic| cc_step) => `(tactic| with_reducible refine cc_listLine ‹CleanCfg _› ?_ ?_ ?_ ?_)
+
+theorem cc_processList {cfg : Cfg} {c : Nat} {channels : List Str} {server : Option Str} {x : Ctx}
+    (hcfg : CleanCfg cfg) (hchs : CleanL channels) (hx : CleanCtx x) :
+    CleanCtx (processList cfg c channels server x) := by
+  have hcn := cc_conn hx c
+  have _ := hchs   -- not needed: an emitted channel name is a key found by lookup
+  unfold processList
+  dsimp only [reply_w]
+  cc
+
+theorem cc_processInvite {cfg : Cfg} {c : Nat} {nickname channel : Str} {msg : Message} {x : Ctx}
+    (hcfg : CleanCfg cfg) (hn : Clean nickname) (hch : Clean channel) (hm : CleanMsg msg)
+    (hx : CleanCtx x) : CleanCtx (processInvite cfg c nickname channel msg x) := by
+  have hcn := cc_conn hx c
+  unfold processInvite
+  dsimp only
+  cc
+
+
+theorem kickSelect_clean {client channel : Str} {ch : Channel} {b : Bool} (hc : Clean client)
+    (hch : Clean channel) : ∀ {us kicked : List Str}, CleanL us → CleanL kicked →
+      CleanL (kickSelect client channel ch b us kicked).1 ∧ CleanL (kickSelect client channel ch b us kicked).2
+  | [], kicked, _, hk => by simp [kickSelect, hk]
+  | ku :: rest, kicked, hu, hk => by
+    have hu' := cleanL_cons.1 hu
+    have ih := fun kicked hk => @kickSelect_clean client channel ch b hc hch rest kicked hu'.2 hk
+    unfold kickSelect
+    split
+    · split
+      · refine ih _ ?_
+        split
+        · exact hk
+        · exact cleanL_append.2 ⟨hk, cleanL_cons.2 ⟨hu'.1, cleanL_nil⟩⟩
+      · exact ⟨(ih _ hk).1, cleanL_cons.2 ⟨by simp [hc], (ih _ hk).2⟩⟩
+    · exact ⟨(ih _ hk).1, cleanL_cons.2 ⟨by simp [hc, hch, hu'.1], (ih _ hk).2⟩⟩
+
+theorem cw_foldl {α : Type} {f : World → α → World} {l : List α}
+    (hf : ∀ w a, a ∈ l → CleanWorld w → CleanWorld (f w a)) {w : World} (hw : CleanWorld w) :
+    CleanWorld (l.foldl f w) := by
+  induction l generalizing w with
+  | nil => exact hw
+  | cons a l ih =>
+    simp only [List.foldl_cons]
+    exact ih (fun w b hb => hf w b (List.mem_cons_of_mem _ hb)) (hf w a (List.mem_cons_self ..) hw)
+macro_rules | `(tactic| cc_step) => `(tactic| with_reducible refine cw_foldl (fun _ _ _ _ => ?_) ?_)
+
+macro_rules | `(tactic| clist) => `(tactic| first |
+  exact (kickSelect_clean (by ca) (by ca) (by assumption) cleanL_nil).1 | fail)
+macro_rules | `(tactic| clist) => `(tactic| first |
+  exact (kickSelect_clean (by ca) (by ca) (by assumption) cleanL_nil).2 | fail)
+
+theorem cc_processKick {cfg : Cfg} {c : Nat} {channel : Str} {kickUsers : List Str}
+    {comment : Option Str} {x : Ctx} (hcfg : CleanCfg cfg) (hch : Clean channel)
+    (hus : CleanL kickUsers) (hcm : CleanO comment) (hx : CleanCtx x) :
+    CleanCtx (processKick cfg c channel kickUsers comment x) := by
+  have hcn := cc_conn hx c
+  have hcm' : Clean (comment.getD (str "Kicked")) := hcm.getD (by decide)
+  unfold processKick
+  dsimp only
+  cc
+
+/-! ## 7. HRest -/
+
+theorem mem_dedup : ∀ {l : List Str} {s : Str}, s ∈ dedup l → s ∈ l
+  | [], _, h => by simp [dedup] at h
+  | x :: xs, s, h => by
+    unfold dedup at h
+    rcases List.mem_cons.1 h with rfl | h
+    · exact List.mem_cons_self ..
+    · exact List.mem_cons_of_mem _ (mem_dedup (List.mem_filter.1 h).1)
+
+theorem dedup_clean {l : List Str} (h : CleanL l) : CleanL (dedup l) :=
+  h.subset (fun _ hs => mem_dedup hs)
+
+theorem cc_processAway {cfg : Cfg} {c : Nat} {text : Option Str} {x : Ctx} (hcfg : CleanCfg cfg)
+    (ht : CleanO text) (hx : CleanCtx x) : CleanCtx (processAway cfg c text x) := by
+  have hcn := cc_conn hx c
+  unfold processAway
+  dsimp only
+  cc
+
+
+theorem cc_processIson {cfg : Cfg} {c : Nat} {nicknames : List Str} {x : Ctx} (hcfg : CleanCfg cfg)
+    (hns : CleanL nicknames) (hx : CleanCtx x) : CleanCtx (processIson cfg c nicknames x) := by
+  have hcn := cc_conn hx c
+  unfold processIson
+  dsimp only
+  cc
+
+theorem cc_processWallops {cfg : Cfg} {c : Nat} {msg : Message} {x : Ctx} (hcfg : CleanCfg cfg)
+    (hm : CleanMsg msg) (hx : CleanCtx x) : CleanCtx (processWallops cfg c msg x) := by
+  have hcn := cc_conn hx c
+  unfold processWallops
+  dsimp only
+  cc
+
+theorem cc_processUserhost {cfg : Cfg} {c : Nat} {nicknames : List Str} {x : Ctx} (hcfg : CleanCfg cfg)
+    (hns : CleanL nicknames) (hx : CleanCtx x) : CleanCtx (processUserhost cfg c nicknames x) := by
+  have hcn := cc_conn hx c
+  unfold processUserhost
+  dsimp only
+  cc
+  rename_i y nicks hnk hy
+  intro s hs
+  obtain ⟨n, hn, h⟩ := List.mem_filterMap.1 hs
+  have hnc : Clean n := hns _ (mem_chunks hnk hn)
+  split at h
+  · cases h
+    clean_side
+    split <;> decide
+    split <;> decide
+  · cases h
+
+theorem cc_processWhowas {cfg : Cfg} {c : Nat} {nickname : Str} {count : Option Nat}
+    {server : Option Str} {x : Ctx} (hcfg : CleanCfg cfg)
+    (hn : Clean nickname) (hx : CleanCtx x) : CleanCtx (processWhowas cfg c nickname count server x) := by
+  have hcn := cc_conn hx c
+  unfold processWhowas
+  dsimp only
+  cc
+  all_goals (
+    have hh := cw_hist hx.w ‹Map.lookup nickname x.w.histories = some _›
+    have := hh _ (List.mem_reverse.1 (List.mem_of_mem_take ‹_ ∈ List.take _ _›))
+    ca)
+
+
+/-! ### KILL / DIE / SQUIT -/
+
+theorem fireKill_clean {killer comment nick : Str} {w : World} (h : CleanWorld w) (hk : Clean killer)
+    (hc : Clean comment) : CleanWorld (fireKill killer comment nick w) := by
+  unfold fireKill
+  split
+  · exact h
+  · rename_i u hl
+    have hu := cw_user h hl
+    split
+    · exact h
+    · have hw' : CleanWorld { w with users := Map.insert nick { u with killed := true } w.users } :=
+        cw_users h (h.users.insert (h.users.key_of_lookup hl)
+          ⟨hu.hostname, hu.name, hu.realname, hu.source, hu.away, hu.channels, hu.invitedTo, hu.history⟩)
+      dsimp only
+      split
+      · rename_i cn hcn
+        have hcn' := cw_conn? hw' hcn
+        refine cw_setConn hw' ⟨hcn'.hostname, hcn'.nick, hcn'.name, hcn'.realname, hcn'.password,
+          hcn'.source, ?_⟩
+        intro p e
+        cases e
+        exact ⟨hk, hc⟩
+      · exact hw'
+macro_rules | `(tactic| cc_step) => `(tactic| with_reducible refine fireKill_clean ?_ ?_ ?_)
+
+theorem fireKill_foldl_clean {killer comment : Str} (hk : Clean killer) (hc : Clean comment) :
+    ∀ {l : List Str} {w : World}, CleanWorld w →
+      CleanWorld (l.foldl (fun w n => fireKill killer comment n w) w)
+  | [], _, h => h
+  | n :: l, w, h => by
+    simp only [List.foldl_cons]
+    exact fireKill_foldl_clean hk hc (fireKill_clean h hk hc)
+
+theorem cc_processKill {cfg : Cfg} {c : Nat} {nickname comment : Str} {x : Ctx} (hcfg : CleanCfg cfg)
+    (hn : Clean nickname) (hcm : Clean comment) (hx : CleanCtx x) :
+    CleanCtx (processKill cfg c nickname comment x) := by
+  have hcn := cc_conn hx c
+  unfold processKill
+  dsimp only
+  cc
+
+theorem cc_processDie {cfg : Cfg} {c : Nat} {message : Option Str} {x : Ctx} (hcfg : CleanCfg cfg)
+    (hm : CleanO message) (hx : CleanCtx x) : CleanCtx (processDie cfg c message x) := by
+  have hcn := cc_conn hx c
+  unfold processDie
+  dsimp only
+  split
+  · cc
+  · rename_i nick hnick
+    have hnk : Clean nick := hcn.nick _ hnick
+    have hmsg : Clean (message.getD (str "Quitting from DIE")) := hm.getD (by decide)
+    split
+    · cc
+    · split
+      · refine cc_modifyW hx ?_
+        have := fireKill_foldl_clean (l := Map.keys x.w.users) hnk hmsg hx.w
+        exact this.of_eq rfl rfl rfl rfl rfl
+      · cc
+macro_rules | `(tactic| cc_step) => `(tactic| with_reducible refine cc_processDie ‹CleanCfg _› ?_ ?_)
+
+theorem cc_processSquit {cfg : Cfg} {c : Nat} {server comment : Str} {x : Ctx} (hcfg : CleanCfg cfg)
+    (hs : Clean server) (hcm : Clean comment) (hx : CleanCtx x) :
+    CleanCtx (processSquit cfg c server comment x) := by
+  have hcn := cc_conn hx c
+  have _ := hs
+  unfold processSquit
+  cc
+
+
+/-! ### WHO -/
+
+theorem cc_sendWhoInfo {cfg : Cfg} {cn : Conn} {channel : Option (Str × ChanUserModes)} {userNick : Str}
+    {user cmdUser : User} {x : Ctx} (hcfg : CleanCfg cfg) (hcn : CleanConn cn)
+    (hch : ∀ p, channel = some p → Clean p.1) (hn : Clean userNick) (hu : CleanUser user)
+    (hx : CleanCtx x) : CleanCtx (sendWhoInfo cfg cn channel userNick user cmdUser x) := by
+  have hch' : ∀ s m, channel = some (s, m) → Clean s := fun s m e => hch _ e
+  clear hch
+  unfold sendWhoInfo
+  dsimp only
+  cc
+  all_goals exact hch' _ _ rfl
+macro_rules | `(tactic| cc_step) => `(tactic| with_reducible refine cc_sendWhoInfo ‹CleanCfg _› ?_ ?_ ?_ ?_ ?_)
+
+theorem cc_processWho {cfg : Cfg} {c : Nat} {mask : Str} {x : Ctx} (hcfg : CleanCfg cfg)
+    (hm : Clean mask) (hx : CleanCtx x) : CleanCtx (processWho cfg c mask x) := by
+  have hcn := cc_conn hx c
+  unfold processWho
+  dsimp only
+  cc
+  intro p e
+  cases e
+  exact hm
+
+
+/-! ### WHOIS -/
+
+theorem cc_whoisOne {cfg : Cfg} {cn : Conn} {user : User} {nick : Str} {x : Ctx} (hcfg : CleanCfg cfg)
+    (hcn : CleanConn cn) (hn : Clean nick) (hx : CleanCtx x) : CleanCtx (whoisOne cfg cn user nick x) := by
+  unfold whoisOne
+  dsimp only
+  cc
+  all_goals (
+    intro p hp
+    have hp' := mem_chunks ‹_ ∈ chunks _ _› hp
+    obtain ⟨o, ho, hg⟩ := List.mem_filterMap.1 hp'
+    obtain ⟨chn, hchn, rfl⟩ := List.mem_map.1 ho
+    have hcl : Clean chn := (cw_user hx.w ‹Map.lookup nick x.w.users = some _›).channels _ hchn
+    clear hp' ho hp
+    split at hg
+    · rename_i pfx chn' hm
+      cases hg
+      refine ⟨cleanO_some.2 ?_, ?_⟩
+      all_goals (
+        repeat' split at hm
+        all_goals first
+          | (cases hm; done)
+          | (cases hm; first | exact prefixStr_clean _ _ | exact hcl))
+    · cases hg)
+macro_rules | `(tactic| cc_step) => `(tactic| with_reducible refine cc_whoisOne ‹CleanCfg _› ?_ ?_ ?_)
+
+
+theorem cc_processWhois {cfg : Cfg} {c : Nat} {target : Option Str} {nickmasks : List Str} {x : Ctx}
+    (hcfg : CleanCfg cfg) (ht : CleanO target) (hns : CleanL nickmasks) (hx : CleanCtx x) :
+    CleanCtx (processWhois cfg c target nickmasks x) := by
+  have hcn := cc_conn hx c
+  have _ := ht
+  unfold processWhois
+  dsimp only
+  cc
+  rename_i hmem _
+  rcases List.mem_append.1 (mem_dedup hmem) with h | h
+  · exact hns _ (List.mem_filter.1 h).1
+  · split at h
+    · cases h
+    · exact hx.w.users.keys _ (List.mem_filter.1 h).1
+
+
+/-! ### PRIVMSG / NOTICE -/
+
+theorem privmsgTargetLoop_clean : ∀ {s : Str} {out : TargetType} {a : Nat} {l : Bool}, Clean s →
+    Clean (privmsgTargetLoop out a l s).2
+  | [], _, _, _, _ => by simp [privmsgTargetLoop]
+  | c :: cs, out, a, l, h => by
+    have hc := clean_cons.1 h
+    unfold privmsgTargetLoop
+    repeat' split
+    all_goals first
+      | exact privmsgTargetLoop_clean hc.2
+      | exact clean_nil
+      | exact h
+      | exact clean_cons.2 ⟨by decide, h⟩
+
+theorem getPrivmsgTargetType_clean {t : Str} (h : Clean t) : Clean (getPrivmsgTargetType t).2 :=
+  privmsgTargetLoop_clean h
+
+theorem specialRecipients_clean {tt : TargetType} {ch : Channel} {nick : Str} (h : CleanChan ch) :
+    CleanL (specialRecipients tt ch nick) := by
+  unfold specialRecipients
+  dsimp only
+  refine dedup_clean (CleanL.filter ?_ _)
+  have hm := h.modes
+  simp only [cleanL_append]
+  refine ⟨⟨⟨⟨?_, ?_⟩, ?_⟩, ?_⟩, ?_⟩ <;> split <;> first | exact cleanL_nil | clist
+
+theorem cc_privmsgTarget {cfg : Cfg} {c : Nat} {nick : Str} {notice : Bool} {text target : Str} {x : Ctx}
+    (hcfg : CleanCfg cfg) (ht : Clean text) (htg : Clean target) (hx : CleanCtx x) :
+    CleanCtx (privmsgTarget cfg c nick notice text target x).1 := by
+  have hcn := cc_conn hx c
+  have hch := getPrivmsgTargetType_clean htg
+  unfold privmsgTarget
+  dsimp only
+  cc
+
+
+theorem cc_foldl_pair {α β : Type} {f : Ctx × β → α → Ctx × β} {l : List α}
+    (hf : ∀ p a, a ∈ l → CleanCtx p.1 → CleanCtx (f p a).1) {p : Ctx × β} (hp : CleanCtx p.1) :
+    CleanCtx (l.foldl f p).1 := by
+  induction l generalizing p with
+  | nil => exact hp
+  | cons a l ih =>
+    simp only [List.foldl_cons]
+    exact ih (fun p b hb => hf p b (List.mem_cons_of_mem _ hb)) (hf p a (List.mem_cons_self ..) hp)
+
+theorem cc_processPrivmsgNotice {cfg : Cfg} {c : Nat} {targets : List Str} {text : Str} {notice : Bool}
+    {x : Ctx} (hcfg : CleanCfg cfg) (hts : CleanL targets) (ht : Clean text) (hx : CleanCtx x) :
+    CleanCtx (processPrivmsgNotice cfg c targets text notice x) := by
+  unfold processPrivmsgNotice
+  dsimp only
+  split
+  · cc
+  · rename_i nick hnick
+    have hf : CleanCtx ((dedup targets).foldl (fun (x, d) t =>
+        let (x', d') := privmsgTarget cfg c nick notice text t x
+        (x', d || d')) (x, false)).1 := by
+      refine cc_foldl_pair (fun p a ha hp => ?_) hx
+      obtain ⟨y, d⟩ := p
+      exact cc_privmsgTarget hcfg ht (dedup_clean hts _ ha) hp
+    revert hf
+    generalize (dedup targets).foldl _ (x, false) = r
+    obtain ⟨y, d⟩ := r
+    intro hf
+    dsimp only
+    cc
+
+/-! ## 8. HQuery -/
+
+theorem cc_processVersion {cfg : Cfg} {c : Nat} {target : Option Str} {x : Ctx} (hcfg : CleanCfg cfg)
+    (hx : CleanCtx x) : CleanCtx (processVersion cfg c target x) := by
+  have hcn := cc_conn hx c
+  unfold processVersion
+  dsimp only
+  cc
+
+theorem cc_processAdmin {cfg : Cfg} {c : Nat} {target : Option Str} {x : Ctx} (hcfg : CleanCfg cfg)
+    (hx : CleanCtx x) : CleanCtx (processAdmin cfg c target x) := by
+  have hcn := cc_conn hx c
+  unfold processAdmin
+  dsimp only
+  cc
+
+theorem cc_processTime {cfg : Cfg} {c : Nat} {server : Option Str} {x : Ctx} (hcfg : CleanCfg cfg)
+    (hx : CleanCtx x) : CleanCtx (processTime cfg c server x) := by
+  have hcn := cc_conn hx c
+  unfold processTime
+  dsimp only
+  cc
+
+theorem cc_processStats {cfg : Cfg} {c : Nat} {stat : Char} {server : Option Str} {x : Ctx}
+    (hcfg : CleanCfg cfg) (hq : stat ≠ nl) (hx : CleanCtx x) :
+    CleanCtx (processStats cfg c stat server x) := by
+  have hcn := cc_conn hx c
+  unfold processStats
+  dsimp only
+  cc
+
+theorem cc_processLinks {cfg : Cfg} {c : Nat} {remote mask : Option Str} {x : Ctx} (hcfg : CleanCfg cfg)
+    (hx : CleanCtx x) : CleanCtx (processLinks cfg c remote mask x) := by
+  have hcn := cc_conn hx c
+  unfold processLinks
+  dsimp only
+  cc
+
+theorem cc_processInfo {cfg : Cfg} {c : Nat} {x : Ctx} (hcfg : CleanCfg cfg)
+    (hx : CleanCtx x) : CleanCtx (processInfo cfg c x) := by
+  have hcn := cc_conn hx c
+  unfold processInfo
+  dsimp only
+  cc
+
+
+/-! ### HELP -/
+
+theorem cc_helpLines {cfg : Cfg} {client subject : Str} (hcfg : CleanCfg cfg) (hc : Clean client)
+    (hs : Clean subject) : ∀ {lines : List Str} {i total : Nat} {x : Ctx}, CleanL lines → CleanCtx x →
+      CleanCtx (helpLines cfg client subject i lines total x)
+  | [], _, _, _, _, hx => by unfold helpLines; exact hx
+  | line :: rest, i, total, x, hl, hx => by
+    have hl' := cleanL_cons.1 hl
+    have h1 := hl'.1
+    unfold helpLines
+    dsimp only
+    refine cc_helpLines hcfg hc hs hl'.2 ?_
+    cc
+
+theorem cc_processHelp {cfg : Cfg} {c : Nat} {subjectOpt : Option Str} {x : Ctx} (hcfg : CleanCfg cfg)
+    (hs : CleanO subjectOpt) (hx : CleanCtx x) : CleanCtx (processHelp cfg c subjectOpt x) := by
+  have hcn := cc_conn hx c
+  have hsub : Clean (subjectOpt.getD (str "MAIN")) := hs.getD (by decide)
+  unfold processHelp
+  dsimp only
+  split
+  · rename_i t content heq
+    exact cc_helpLines hcfg (cc_clientName hx c) hsub (splitTerminator_clean content) hx
+  · cc
+
+/-! ### channel MODE -/
+
+structure CleanAcc (a : ModeAcc) : Prop where
+  x : CleanCtx a.x
+  ch : CleanChan a.ch
+  args : CleanL a.args
+  setStr : Clean a.setStr
+  unsetStr : Clean a.unsetStr
+  paramsStr : Clean a.paramsStr
+
+theorem CleanL.head_of_eq {l r : List Str} {a : Str} (e : l = a :: r) (h : CleanL l) : Clean a :=
+  (cleanL_cons.1 (e ▸ h)).1
+theorem CleanL.tail_of_eq {l r : List Str} {a : Str} (e : l = a :: r) (h : CleanL l) : CleanL r :=
+  (cleanL_cons.1 (e ▸ h)).2
+
+
+theorem lookup_getD_clean {m : Map Str} {k : Str} (h : CleanMap Clean m) :
+    Clean ((Map.lookup k m).getD []) := by
+  cases hl : Map.lookup k m with
+  | none => exact clean_nil
+  | some v => exact h.lookup hl
+
+theorem setRank_clean {ch ch' : Channel} {letter : Char} {nick : Str} {on : Bool} (hch : CleanChan ch)
+    (hn : Clean nick) (h : ch.setRank letter nick on = some ch') : CleanChan ch' := by
+  unfold Channel.setRank at h
+  split at h
+  · cases h
+  · extract_lets +onlyGivenNames upd at h
+    have hupd : ∀ {s : KSet}, CleanL s → CleanL (upd s) := by
+      intro s hs
+      show CleanL (if _ then _ else _)
+      split
+      · exact hs.kinsert hn
+      · exact hs.kerase _
+    clear_value upd
+    have hm := hch.modes
+    dsimp only at h
+    cases h
+    refine ⟨hch.topic, ?_, hch.defaultModes, hch.banInfo, hch.users.insert hn trivial⟩
+    dsimp only
+    repeat' split
+    all_goals first
+      | exact hm
+      | exact ⟨hm.ban, hm.exception, hm.inviteException, hm.key, hupd hm.operators, hm.halfOperators, hm.voices, hm.founders, hm.protecteds⟩
+      | exact ⟨hm.ban, hm.exception, hm.inviteException, hm.key, hm.operators, hupd hm.halfOperators, hm.voices, hm.founders, hm.protecteds⟩
+      | exact ⟨hm.ban, hm.exception, hm.inviteException, hm.key, hm.operators, hm.halfOperators, hupd hm.voices, hm.founders, hm.protecteds⟩
+      | exact ⟨hm.ban, hm.exception, hm.inviteException, hm.key, hm.operators, hm.halfOperators, hm.voices, hupd hm.founders, hm.protecteds⟩
+      | exact ⟨hm.ban, hm.exception, hm.inviteException, hm.key, hm.operators, hm.halfOperators, hm.voices, hm.founders, hupd hm.protecteds⟩
+
+theorem cchan_upd {ch : Channel} {m : ChannelModes} {bi : Map Str} (hch : CleanChan ch)
+    (hm : CleanModes m) (hb : CleanMap Clean bi) :
+    CleanChan { topic := ch.topic, modes := m, defaultModes := ch.defaultModes, banInfo := bi,
+                users := ch.users, preconfigured := ch.preconfigured } :=
+  ⟨hch.topic, hm, hch.defaultModes, hb, hch.users⟩
+
+theorem cmodes_upd {m : ChannelModes} {b e ie : KSet} {k : Option Str} {cl : Option Nat}
+    {f1 f2 f3 f4 f5 : Bool} (hm : CleanModes m) (hb : CleanL b) (he : CleanL e) (hie : CleanL ie)
+    (hk : CleanO k) :
+    CleanModes { ban := b, exception := e, clientLimit := cl, inviteException := ie, key := k,
+                 operators := m.operators, halfOperators := m.halfOperators, voices := m.voices,
+                 founders := m.founders, protecteds := m.protecteds, inviteOnly := f1,
+                 moderated := f2, secret := f3, protectedTopic := f4, noExternalMessages := f5 } :=
+  ⟨hb, he, hie, hk, hm.operators, hm.halfOperators, hm.voices, hm.founders, hm.protecteds⟩
+
+theorem params_clean {p l arg : Str} {b : Bool} (hp : Clean p) (hl : Clean l) (harg : Clean arg) :
+    Clean ((p ++ if b = true then str " +" else str " -") ++ l ++ arg) := by
+  cases b <;> simp (config := { decide := true }) [hp, hl, harg]
+
+theorem kset_ite_clean {s : KSet} {k : Str} {b : Bool} (hs : CleanL s) (hk : Clean k) :
+    CleanL (if b = true then KSet.insert k s else KSet.erase k s) := by
+  split
+  · exact hs.kinsert hk
+  · exact hs.kerase _
+
+theorem CleanAcc.ite {c : Prop} [Decidable c] {A B : ModeAcc} (hA : c → CleanAcc A)
+    (hB : ¬c → CleanAcc B) : CleanAcc (if c then A else B) := by
+  split
+  · exact hA ‹_›
+  · exact hB ‹_›
+
+
+theorem modeChar_clean {cfg : Cfg} {cn : Conn} {target : Str} {chum : ChanUserModes} {a : ModeAcc}
+    {mchar : Char} (hcfg : CleanCfg cfg) (hcn : CleanConn cn) (ht : Clean target) (hm : mchar ≠ nl)
+    (ha : CleanAcc a) : CleanAcc (modeChar cfg cn target chum a mchar) := by
+  unfold modeChar
+  extract_lets +onlyGivenNames client nick err482 preChecked a1
+  have hcl : Clean client := clientName_clean hcn
+  have hn : Clean nick := hcn.nick.getD clean_nil
+  have h482 : Clean (ErrChanOpPrivsNeeded482 client target) := by clean_simp; exact ⟨hcl, ht⟩
+  have ha1 : CleanAcc a1 := by
+    show CleanAcc (if _ then _ else _)
+    split
+    · exact ⟨cc_reply hcfg ha.x h482, ha.ch, ha.args, ha.setStr, ha.unsetStr, ha.paramsStr⟩
+    · exact ha
+  clear_value a1 client nick
+  clear preChecked
+  dsimp only [err482]
+  clear err482 ha a
+  obtain ⟨hax, hach, haargs, hass, haus, haps⟩ := ha1
+  have hmo := hach.modes
+  -- '+'
+  with_reducible refine CleanAcc.ite (fun _ => ?_) (fun _ => ?_)
+  · exact ⟨hax, hach, haargs, hass, haus, haps⟩
+  -- '-'
+  with_reducible refine CleanAcc.ite (fun _ => ?_) (fun _ => ?_)
+  · exact ⟨hax, hach, haargs, hass, haus, haps⟩
+  -- 'b'
+  with_reducible refine CleanAcc.ite (fun _ => ?_) (fun _ => ?_)
+  · split
+    · rename_i bmask rest heq
+      have hr := CleanL.tail_of_eq heq haargs
+      have hnorm := normalizeSourcemask_clean (CleanL.head_of_eq heq haargs)
+      with_reducible refine CleanAcc.ite (fun _ => ?_) (fun _ => ?_)
+      · with_reducible refine CleanAcc.ite (fun _ => ?_) (fun _ => ?_)
+        · exact ⟨hax, cchan_upd hach (cmodes_upd hmo (hmo.ban.kinsert hnorm) hmo.exception
+            hmo.inviteException hmo.key) (hach.banInfo.insert hnorm hn), hr, hass, haus,
+            params_clean haps (by decide) hnorm⟩
+        · exact ⟨hax, cchan_upd hach (cmodes_upd hmo (hmo.ban.kerase _) hmo.exception
+            hmo.inviteException hmo.key) (hach.banInfo.erase _), hr, hass, haus,
+            params_clean haps (by decide) hnorm⟩
+      · exact ⟨cc_reply hcfg hax h482, hach, hr, hass, haus, haps⟩
+    · refine ⟨cc_reply hcfg (cc_foldl (fun x b hb hx => cc_reply hcfg hx ?_) hax) ?_, hach, haargs, hass, haus, haps⟩
+      · clean_simp; exact ⟨hcl, ht, hmo.ban _ hb, lookup_getD_clean hach.banInfo⟩
+      · clean_simp; exact ⟨hcl, ht⟩
+  -- 'e'
+  with_reducible refine CleanAcc.ite (fun _ => ?_) (fun _ => ?_)
+  · split
+    · rename_i emask rest heq
+      have hr := CleanL.tail_of_eq heq haargs
+      have hnorm := normalizeSourcemask_clean (CleanL.head_of_eq heq haargs)
+      with_reducible refine CleanAcc.ite (fun _ => ?_) (fun _ => ?_)
+      · exact ⟨hax, cchan_upd hach (cmodes_upd hmo hmo.ban (kset_ite_clean hmo.exception hnorm)
+            hmo.inviteException hmo.key) hach.banInfo, hr, hass, haus,
+            params_clean haps (by decide) hnorm⟩
+      · exact ⟨cc_reply hcfg hax h482, hach, hr, hass, haus, haps⟩
+    · refine ⟨cc_reply hcfg (cc_foldl (fun x b hb hx => cc_reply hcfg hx ?_) hax) ?_, hach, haargs, hass, haus, haps⟩
+      · clean_simp; exact ⟨hcl, ht, hmo.exception _ hb⟩
+      · clean_simp; exact ⟨hcl, ht⟩
+  -- 'I'
+  with_reducible refine CleanAcc.ite (fun _ => ?_) (fun _ => ?_)
+  · split
+    · rename_i imask rest heq
+      have hr := CleanL.tail_of_eq heq haargs
+      have hnorm := normalizeSourcemask_clean (CleanL.head_of_eq heq haargs)
+      with_reducible refine CleanAcc.ite (fun _ => ?_) (fun _ => ?_)
+      · exact ⟨hax, cchan_upd hach (cmodes_upd hmo hmo.ban hmo.exception
+            (kset_ite_clean hmo.inviteException hnorm) hmo.key) hach.banInfo, hr, hass, haus,
+            params_clean haps (by decide) hnorm⟩
+      · exact ⟨cc_reply hcfg hax h482, hach, hr, hass, haus, haps⟩
+    · refine ⟨cc_reply hcfg (cc_foldl (fun x b hb hx => cc_reply hcfg hx ?_) hax) ?_, hach, haargs, hass, haus, haps⟩
+      · clean_simp; exact ⟨hcl, ht, hmo.inviteException _ hb⟩
+      · clean_simp; exact ⟨hcl, ht⟩
+  -- rank letters
+  with_reducible refine CleanAcc.ite (fun _ => ?_) (fun _ => ?_)
+  · split
+    · exact ⟨cc_panic hax _, hach, haargs, hass, haus, haps⟩
+    · rename_i arg rest heq
+      have hr := CleanL.tail_of_eq heq haargs
+      have harg := CleanL.head_of_eq heq haargs
+      with_reducible refine CleanAcc.ite (fun _ => ?_) (fun _ => ?_)
+      · with_reducible refine CleanAcc.ite (fun _ => ?_) (fun _ => ?_)
+        · split
+          · rename_i ch' hsr
+            exact ⟨hax, setRank_clean hach harg hsr, hr, hass, haus,
+              params_clean haps (clean_cons.2 ⟨hm, by decide⟩) harg⟩
+          · exact ⟨cc_panic hax _, hach, hr, hass, haus, haps⟩
+        · exact ⟨hax, hach, hr, hass, haus, haps⟩
+      · refine ⟨cc_reply hcfg hax ?_, hach, hr, hass, haus, haps⟩
+        clean_simp; exact ⟨hcl, harg, ht⟩
+  -- 'l'
+  with_reducible refine CleanAcc.ite (fun _ => ?_) (fun _ => ?_)
+  · with_reducible refine CleanAcc.ite (fun _ => ?_) (fun _ => ?_)
+    · with_reducible refine CleanAcc.ite (fun _ => ?_) (fun _ => ?_)
+      · split
+        · exact ⟨cc_panic hax _, hach, haargs, hass, haus, haps⟩
+        · rename_i arg rest heq
+          have hr := CleanL.tail_of_eq heq haargs
+          have harg := CleanL.head_of_eq heq haargs
+          split
+          · exact ⟨hax, cchan_upd hach (cmodes_upd hmo hmo.ban hmo.exception hmo.inviteException
+              hmo.key) hach.banInfo, hr, hass, haus,
+              clean_append.2 ⟨clean_append.2 ⟨haps, by decide⟩, harg⟩⟩
+          · exact ⟨cc_panic hax _, hach, hr, hass, haus, haps⟩
+      · exact ⟨hax, cchan_upd hach (cmodes_upd hmo hmo.ban hmo.exception hmo.inviteException
+          hmo.key) hach.banInfo, haargs, hass, clean_append.2 ⟨haus, by decide⟩, haps⟩
+    · exact ⟨hax, hach, haargs, hass, haus, haps⟩
+  -- 'k'
+  with_reducible refine CleanAcc.ite (fun _ => ?_) (fun _ => ?_)
+  · with_reducible refine CleanAcc.ite (fun _ => ?_) (fun _ => ?_)
+    · with_reducible refine CleanAcc.ite (fun _ => ?_) (fun _ => ?_)
+      · split
+        · exact ⟨cc_panic hax _, hach, haargs, hass, haus, haps⟩
+        · rename_i arg rest heq
+          have hr := CleanL.tail_of_eq heq haargs
+          have harg := CleanL.head_of_eq heq haargs
+          exact ⟨hax, cchan_upd hach (cmodes_upd hmo hmo.ban hmo.exception hmo.inviteException
+              (cleanO_some.2 harg)) hach.banInfo, hr, hass, haus,
+              clean_append.2 ⟨clean_append.2 ⟨haps, by decide⟩, harg⟩⟩
+      · exact ⟨hax, cchan_upd hach (cmodes_upd hmo hmo.ban hmo.exception hmo.inviteException
+          cleanO_none) hach.banInfo, haargs, hass, clean_append.2 ⟨haus, by decide⟩, haps⟩
+    · exact ⟨hax, hach, haargs, hass, haus, haps⟩
+  -- flags
+  with_reducible refine CleanAcc.ite (fun _ => ?_) (fun _ => ?_)
+  · with_reducible refine CleanAcc.ite (fun _ => ?_) (fun _ => ?_)
+    · have hm' : CleanModes (if mchar = 'i' then { a1.ch.modes with inviteOnly := a1.modeSet }
+          else if mchar = 'm' then { a1.ch.modes with moderated := a1.modeSet }
+          else if mchar = 't' then { a1.ch.modes with protectedTopic := a1.modeSet }
+          else if mchar = 'n' then { a1.ch.modes with noExternalMessages := a1.modeSet }
+          else { a1.ch.modes with secret := a1.modeSet }) := by
+        repeat' split
+        all_goals exact cmodes_upd hmo hmo.ban hmo.exception hmo.inviteException hmo.key
+      have h1 : Clean [mchar] := clean_cons.2 ⟨hm, clean_nil⟩
+      with_reducible refine CleanAcc.ite (fun _ => ?_) (fun _ => ?_)
+      · exact ⟨hax, cchan_upd hach hm' hach.banInfo, haargs, clean_append.2 ⟨hass, h1⟩, haus, haps⟩
+      · exact ⟨hax, cchan_upd hach hm' hach.banInfo, haargs, hass, clean_append.2 ⟨haus, h1⟩, haps⟩
+    · exact ⟨hax, hach, haargs, hass, haus, haps⟩
+  exact ⟨hax, hach, haargs, hass, haus, haps⟩
+
+theorem foldl_modeChar_clean {cfg : Cfg} {cn : Conn} {target : Str} {chum : ChanUserModes}
+    (hcfg : CleanCfg cfg) (hcn : CleanConn cn) (ht : Clean target) :
+    ∀ {cs : Str} {a : ModeAcc}, Clean cs → CleanAcc a →
+      CleanAcc (cs.foldl (modeChar cfg cn target chum) a)
+  | [], _, _, ha => ha
+  | c :: cs, a, hcs, ha => by
+    have h := clean_cons.1 hcs
+    simp only [List.foldl_cons]
+    exact foldl_modeChar_clean hcfg hcn ht h.2 (modeChar_clean hcfg hcn ht h.1 ha)
+
+theorem modeGroup_clean {cfg : Cfg} {cn : Conn} {target : Str} {chum : ChanUserModes} {a : ModeAcc}
+    {g : Str × List Str} (hcfg : CleanCfg cfg) (hcn : CleanConn cn) (ht : Clean target)
+    (hg1 : Clean g.1) (hg2 : CleanL g.2) (ha : CleanAcc a) :
+    CleanAcc (modeGroup cfg cn target chum a g) := by
+  unfold modeGroup
+  exact foldl_modeChar_clean hcfg hcn ht hg1 ⟨ha.x, ha.ch, hg2, ha.setStr, ha.unsetStr, ha.paramsStr⟩
+
+theorem foldl_modeGroup_clean {cfg : Cfg} {cn : Conn} {target : Str} {chum : ChanUserModes}
+    (hcfg : CleanCfg cfg) (hcn : CleanConn cn) (ht : Clean target) :
+    ∀ {ms : List (Str × List Str)} {a : ModeAcc}, CleanGroups ms → CleanAcc a →
+      CleanAcc (ms.foldl (modeGroup cfg cn target chum) a)
+  | [], _, _, ha => ha
+  | g :: ms, a, hms, ha => by
+    have hg := hms g (List.mem_cons_self ..)
+    simp only [List.foldl_cons]
+    exact foldl_modeGroup_clean hcfg hcn ht (fun g' hg' => hms g' (List.mem_cons_of_mem _ hg'))
+      (modeGroup_clean hcfg hcn ht hg.1 hg.2 ha)
+
+theorem modeAnnouncement_clean {target s u p : Str} (ht : Clean target) (hs : Clean s) (hu : Clean u)
+    (hp : Clean p) : CleanO (modeAnnouncement target s u p) := by
+  unfold modeAnnouncement
+  have hp' := hp.drop 1
+  have hp'' : Clean p.tail := by rw [← List.drop_one]; exact hp'
+  split
+  · exact cleanO_none
+  · dsimp only
+    rw [cleanO_some]
+    repeat' split
+    all_goals simp (config := { decide := true }) [ht, hs, hu, hp'']
+
+theorem cc_processModeChannel {cfg : Cfg} {c : Nat} {target : Str} {ch : Channel}
+    {modes : List (Str × List Str)} {chum : ChanUserModes} {x : Ctx} (hcfg : CleanCfg cfg)
+    (ht : Clean target) (hch : CleanChan ch) (hms : CleanGroups modes) (hx : CleanCtx x) :
+    CleanCtx (processModeChannel cfg c target ch modes chum x) := by
+  have hcn := cc_conn hx c
+  unfold processModeChannel
+  dsimp only
+  split
+  · cc
+  · have ha := foldl_modeGroup_clean (chum := chum) hcfg hcn ht hms
+      (a := { x := x, ch := ch, args := [] }) ⟨hx, hch, cleanL_nil, clean_nil, clean_nil, clean_nil⟩
+    generalize List.foldl (modeGroup cfg (x.conn c) target chum) { x := x, ch := ch, args := [] } modes = a at ha
+    obtain ⟨hax, hach, haargs, hass, haus, haps⟩ := ha
+    have hann := modeAnnouncement_clean ht hass haus haps
+    split
+    · rename_i line hl
+      have hline : Clean line := hann _ hl
+      cc
+    · cc
+
+/-! ### user MODE -/
+
+structure CleanUAcc (a : UModeAcc) : Prop where
+  x : CleanCtx a.x
+  setStr : Clean a.setStr
+  unsetStr : Clean a.unsetStr
+
+theorem CleanUAcc.ite {c : Prop} [Decidable c] {A B : UModeAcc} (hA : c → CleanUAcc A)
+    (hB : ¬c → CleanUAcc B) : CleanUAcc (if c then A else B) := by
+  split
+  · exact hA ‹_›
+  · exact hB ‹_›
+
+/-- world goals of the user-MODE loop: counter changes, possibly behind an underflow check -/
+macro "uworld" : tactic => `(tactic|
+  (dsimp only
+   refine cc_modifyW (by assumption) ?_
+   try dsimp only
+   first
+    | world_frame
+    | (split <;> first | exact cw_panic (by assumption) _ | world_frame)))
+
+theorem umodeChar_clean {cfg : Cfg} {cn : Conn} {nick : Str} {a : UModeAcc} {mchar : Char}
+    (hcfg : CleanCfg cfg) (hcn : CleanConn cn) (hn : Clean nick) (ha : CleanUAcc a) :
+    CleanUAcc (umodeChar cfg cn nick a mchar) := by
+  unfold umodeChar
+  have hcl : Clean cn.clientName := clientName_clean hcn
+  obtain ⟨hax, hass, haus⟩ := ha
+  have haw := hax.w
+  have h481 : Clean (ErrNoPrivileges481 cn.clientName) := by clean_simp; exact hcl
+  have h484 : Clean (ErrYourConnRestricted484 cn.clientName) := by clean_simp; exact hcl
+  dsimp only
+  -- '+'
+  with_reducible refine CleanUAcc.ite (fun _ => ?_) (fun _ => ?_)
+  · exact ⟨hax, hass, haus⟩
+  -- '-'
+  with_reducible refine CleanUAcc.ite (fun _ => ?_) (fun _ => ?_)
+  · exact ⟨hax, hass, haus⟩
+  -- 'i'
+  with_reducible refine CleanUAcc.ite (fun _ => ?_) (fun _ => ?_)
+  · with_reducible refine CleanUAcc.ite (fun _ => ?_) (fun _ => ?_)
+    · with_reducible refine CleanUAcc.ite (fun _ => ?_) (fun _ => ?_)
+      · refine ⟨?_, clean_append.2 ⟨hass, by decide⟩, haus⟩
+        uworld
+      · exact ⟨hax, hass, haus⟩
+    · with_reducible refine CleanUAcc.ite (fun _ => ?_) (fun _ => ?_)
+      · refine ⟨?_, hass, clean_append.2 ⟨haus, by decide⟩⟩
+        uworld
+      · exact ⟨hax, hass, haus⟩
+  -- 'r'
+  with_reducible refine CleanUAcc.ite (fun _ => ?_) (fun _ => ?_)
+  · with_reducible refine CleanUAcc.ite (fun _ => ?_) (fun _ => ?_)
+    · with_reducible refine CleanUAcc.ite (fun _ => ?_) (fun _ => ?_)
+      · with_reducible refine CleanUAcc.ite (fun _ => ?_) (fun _ => ?_)
+        · exact ⟨hax, clean_append.2 ⟨hass, by decide⟩, haus⟩
+        · exact ⟨cc_reply hcfg hax h481, hass, haus⟩
+      · exact ⟨hax, hass, haus⟩
+    · with_reducible refine CleanUAcc.ite (fun _ => ?_) (fun _ => ?_)
+      · exact ⟨cc_reply hcfg hax h484, hass, clean_append.2 ⟨haus, by decide⟩⟩
+      · exact ⟨hax, hass, haus⟩
+  -- 'w'
+  with_reducible refine CleanUAcc.ite (fun _ => ?_) (fun _ => ?_)
+  · with_reducible refine CleanUAcc.ite (fun _ => ?_) (fun _ => ?_)
+    · with_reducible refine CleanUAcc.ite (fun _ => ?_) (fun _ => ?_)
+      · refine ⟨?_, clean_append.2 ⟨hass, by decide⟩, haus⟩
+        dsimp only
+        exact cc_modifyW hax (cw_wallops haw (haw.wallops.kinsert hn))
+      · exact ⟨hax, hass, haus⟩
+    · with_reducible refine CleanUAcc.ite (fun _ => ?_) (fun _ => ?_)
+      · refine ⟨?_, hass, clean_append.2 ⟨haus, by decide⟩⟩
+        dsimp only
+        exact cc_modifyW hax (cw_wallops haw (haw.wallops.kerase _))
+      · exact ⟨hax, hass, haus⟩
+  -- 'o'
+  with_reducible refine CleanUAcc.ite (fun _ => ?_) (fun _ => ?_)
+  · with_reducible refine CleanUAcc.ite (fun _ => ?_) (fun _ => ?_)
+    · with_reducible refine CleanUAcc.ite (fun _ => ?_) (fun _ => ?_)
+      · exact ⟨cc_reply hcfg hax h481, hass, haus⟩
+      · exact ⟨hax, hass, haus⟩
+    · with_reducible refine CleanUAcc.ite (fun _ => ?_) (fun _ => ?_)
+      · with_reducible refine CleanUAcc.ite (fun _ => ?_) (fun _ => ?_)
+        · refine ⟨?_, hass, clean_append.2 ⟨haus, by decide⟩⟩
+          uworld
+        · exact ⟨hax, hass, haus⟩
+      · exact ⟨hax, hass, haus⟩
+  -- 'O'
+  with_reducible refine CleanUAcc.ite (fun _ => ?_) (fun _ => ?_)
+  · with_reducible refine CleanUAcc.ite (fun _ => ?_) (fun _ => ?_)
+    · with_reducible refine CleanUAcc.ite (fun _ => ?_) (fun _ => ?_)
+      · exact ⟨cc_reply hcfg hax h481, hass, haus⟩
+      · exact ⟨hax, hass, haus⟩
+    · with_reducible refine CleanUAcc.ite (fun _ => ?_) (fun _ => ?_)
+      · with_reducible refine CleanUAcc.ite (fun _ => ?_) (fun _ => ?_)
+        · refine ⟨?_, hass, clean_append.2 ⟨haus, by decide⟩⟩
+          uworld
+        · exact ⟨hax, hass, clean_append.2 ⟨haus, by decide⟩⟩
+      · exact ⟨hax, hass, haus⟩
+  exact ⟨hax, hass, haus⟩
+
+theorem foldl_umodeChar_clean {cfg : Cfg} {cn : Conn} {nick : Str} (hcfg : CleanCfg cfg)
+    (hcn : CleanConn cn) (hn : Clean nick) :
+    ∀ {cs : Str} {a : UModeAcc}, CleanUAcc a → CleanUAcc (cs.foldl (umodeChar cfg cn nick) a)
+  | [], _, ha => ha
+  | c :: cs, a, ha => by
+    simp only [List.foldl_cons]
+    exact foldl_umodeChar_clean hcfg hcn hn (umodeChar_clean hcfg hcn hn ha)
+
+theorem foldl_umodeGroup_clean {cfg : Cfg} {cn : Conn} {nick : Str} (hcfg : CleanCfg cfg)
+    (hcn : CleanConn cn) (hn : Clean nick) :
+    ∀ {ms : List (Str × List Str)} {a : UModeAcc}, CleanUAcc a →
+      CleanUAcc (ms.foldl (fun a g =>
+        g.1.foldl (umodeChar cfg cn nick) { a with modeSet := false }) a)
+  | [], _, ha => ha
+  | g :: ms, a, ha => by
+    simp only [List.foldl_cons]
+    exact foldl_umodeGroup_clean hcfg hcn hn
+      (foldl_umodeChar_clean hcfg hcn hn ⟨ha.x, ha.setStr, ha.unsetStr⟩)
+
+theorem cc_processModeUser {cfg : Cfg} {c : Nat} {target : Str} {modes : List (Str × List Str)}
+    {x : Ctx} (hcfg : CleanCfg cfg) (ht : Clean target) (hx : CleanCtx x) :
+    CleanCtx (processModeUser cfg c target modes x) := by
+  have hcn := cc_conn hx c
+  unfold processModeUser
+  dsimp only
+  split
+  · cc
+  · rename_i user hl
+    split
+    · cc
+    · have ha := foldl_umodeGroup_clean (ms := modes) hcfg hcn ht
+        (a := { x := x, modes := user.modes }) ⟨hx, clean_nil, clean_nil⟩
+      generalize List.foldl (fun a g => List.foldl (umodeChar cfg (x.conn c) target)
+        { a with modeSet := false } g.1) ({ x := x, modes := user.modes } : UModeAcc) modes = a at ha
+      obtain ⟨hax, hass, haus⟩ := ha
+      have haw := hax.w
+      have hx' : CleanCtx (a.x.modifyW (fun w =>
+          { w with users := Map.modify target (fun u => { u with modes := a.modes }) w.users })) := by
+        refine cc_modifyW hax (cw_users haw (haw.users.modify _ ?_))
+        intro u hu
+        exact ⟨hu.hostname, hu.name, hu.realname, hu.source, hu.away, hu.channels, hu.invitedTo, hu.history⟩
+      split
+      · refine cc_replySrc hx' (cc_conn hx c).source ?_
+        repeat' split
+        all_goals simp (config := { decide := true }) [ht, hass, haus]
+      · exact hx'
+
+theorem cc_processMode {cfg : Cfg} {c : Nat} {target : Str} {modes : List (Str × List Str)} {x : Ctx}
+    (hcfg : CleanCfg cfg) (ht : Clean target) (hms : CleanGroups modes) (hx : CleanCtx x) :
+    CleanCtx (processMode cfg c target modes x) := by
+  have hcn := cc_conn hx c
+  unfold processMode
+  dsimp only
+  split
+  · cc
+  · split
+    · split
+      · rename_i ch hl
+        have hch := cw_chan hx.w hl
+        split
+        · exact cc_processModeChannel hcfg ht hch hms hx
+        · cc
+      · cc
+    · split
+      · exact cc_processModeUser hcfg ht hx
+      · cc
+
+/-! ## 9. Step -/
+
+
+theorem teardown_clean {w : World} {c : Nat} (h : CleanWorld w) : CleanWorld (teardown w c) := by
+  unfold teardown
+  split
+  · exact h
+  · dsimp only
+    have h1 : ∀ w' : World, CleanWorld w' → CleanWorld
+        { w' with conns := w'.conns.filter (·.id != c), connsCount := w'.connsCount - 1 } := by
+      intro w' h'
+      exact ⟨h'.users, h'.channels, h'.wallops, h'.histories,
+        fun cn hcn => h'.conns cn (List.mem_filter.1 hcn).1⟩
+    apply h1
+    split
+    · split
+      · exact removeUser_clean h
+      · exact h
+    · exact h
+
+/-- the lines delivered during one operation -/
+def CleanOuts (outs : List (Nat × Str)) : Prop := ∀ o ∈ outs, Clean o.2
+
+theorem settleConn_clean {cfg : Cfg} (hcfg : CleanCfg cfg) {acc : World × List (Nat × Str) × List Str}
+    {c : Nat} (hw : CleanWorld acc.1) (ho : CleanOuts acc.2.1) :
+    CleanWorld (settleConn cfg acc c).1 ∧ CleanOuts (settleConn cfg acc c).2.1 := by
+  obtain ⟨w, outs, evs⟩ := acc
+  unfold settleConn
+  dsimp only
+  split
+  · exact ⟨hw, ho⟩
+  · rename_i cn hcn
+    have hc := cw_conn? hw hcn
+    split
+    · -- already quitting
+      exact ⟨teardown_clean hw, ho⟩
+    · split
+      · rename_i killer comment hk
+        have hkc := hc.killedBy _ hk
+        dsimp only
+        have hw' : CleanWorld (w.setConn { cn with quit := true, killedBy := none }) := by
+          refine cw_setConn hw ⟨hc.hostname, hc.nick, hc.name, hc.realname, hc.password, hc.source, ?_⟩
+          intro p hp; cases hp
+        have ho' : CleanOuts (outs ++ [(c, ':' :: (cfg.name ++ ' ' :: (str "ERROR :User killed by " ++
+            killer ++ str ": " ++ comment)))]) := by
+          intro o hmem
+          rcases List.mem_append.1 hmem with hmem | hmem
+          · exact ho o hmem
+          · simp only [List.mem_singleton] at hmem
+            subst hmem
+            have h1 : Clean killer := hkc.1
+            have h2 : Clean comment := hkc.2
+            have h3 := hcfg.name
+            dsimp only
+            clean_simp
+            exact ⟨by decide, h3, by decide, by decide, h1, by decide, h2⟩
+        simp only [if_true]
+        exact ⟨teardown_clean hw', ho'⟩
+      · dsimp only
+        split
+        · exact ⟨teardown_clean hw, ho⟩
+        · exact ⟨hw, ho⟩
+
+
+theorem settle_foldl_clean {cfg : Cfg} (hcfg : CleanCfg cfg) : ∀ {cs : List Nat}
+    {acc : World × List (Nat × Str) × List Str}, CleanWorld acc.1 → CleanOuts acc.2.1 →
+      CleanWorld (cs.foldl (settleConn cfg) acc).1 ∧ CleanOuts (cs.foldl (settleConn cfg) acc).2.1
+  | [], _, hw, ho => ⟨hw, ho⟩
+  | c :: cs, acc, hw, ho => by
+    simp only [List.foldl_cons]
+    have h := settleConn_clean hcfg (c := c) hw ho
+    exact settle_foldl_clean hcfg h.1 h.2
+
+theorem settle_clean {cfg : Cfg} (hcfg : CleanCfg cfg) {w : World} {outs : List (Nat × Str)}
+    {evs : List Str} (hw : CleanWorld w) (ho : CleanOuts outs) :
+    CleanWorld (settle cfg w outs evs).1 ∧ CleanOuts (settle cfg w outs evs).2.1 := by
+  unfold settle
+  exact settle_foldl_clean hcfg hw ho
+
+theorem stepFinish_clean {cfg : Cfg} (hcfg : CleanCfg cfg) {c : Nat} {x : Ctx} {evs : List Str}
+    (hx : CleanCtx x) :
+    CleanWorld (finish cfg c x evs).w ∧ CleanOuts (finish cfg c x evs).outs := by
+  unfold finish
+  dsimp only
+  have ho : CleanOuts (x.direct.map (fun l => (c, l)) ++ x.queued) := by
+    intro o ho
+    rcases List.mem_append.1 ho with ho | ho
+    · simp only [List.mem_map] at ho
+      obtain ⟨l, hl, rfl⟩ := ho
+      exact hx.direct l hl
+    · exact hx.queued o ho
+  exact settle_clean hcfg hx.w ho
+
+theorem cleanOuts_nil : CleanOuts [] := by intro o h; cases h
+
+/-- the strings an event carries into the server: the address of a new connection and
+    a received (already split) line.  The text of a `partialLine` never reaches a handler,
+    so nothing is required of it. -/
+def CleanEvent : Event → Prop
+  | .connect _ ip => Clean ip
+  | .line _ s => Clean s
+  | _ => True
+
+
+theorem init_clean {cfg : Cfg} (hcfg : CleanCfg cfg) : CleanWorld (World.init cfg) := by
+  unfold World.init
+  refine ⟨cleanMap_nil, ?_, cleanL_nil, cleanMap_nil, by intro cn h; cases h⟩
+  dsimp only
+  have key : ∀ (l : List ChanCfg) (m : Map Channel), (∀ c ∈ l, c ∈ cfg.channels) → CleanMap CleanChan m →
+      CleanMap CleanChan (l.foldl (fun m c =>
+        Map.insert c.name
+          { topic := c.topic.map (fun t => { topic := t, nick := [] })
+            modes := { c.modes with operators := [], halfOperators := [], voices := [],
+                                    founders := [], protecteds := [] }
+            defaultModes := { operators := c.modes.operators, halfOperators := c.modes.halfOperators,
+                              voices := c.modes.voices, founders := c.modes.founders,
+                              protecteds := c.modes.protecteds }
+            preconfigured := true } m) m) := by
+    intro l
+    induction l with
+    | nil => intro m _ hm; exact hm
+    | cons c l ih =>
+      intro m hl hm
+      simp only [List.foldl_cons]
+      refine ih _ (fun c' hc' => hl c' (List.mem_cons_of_mem _ hc')) ?_
+      have hc := hcfg.channels c (hl c (List.mem_cons_self ..))
+      have hmo := hc.2.2
+      refine hm.insert hc.1 ⟨?_, ⟨hmo.ban, hmo.exception, hmo.inviteException, hmo.key, cleanL_nil,
+        cleanL_nil, cleanL_nil, cleanL_nil, cleanL_nil⟩,
+        ⟨hmo.operators, hmo.halfOperators, hmo.voices, hmo.founders, hmo.protecteds⟩, cleanMap_nil,
+        cleanMap_nil⟩
+      intro t ht
+      dsimp only at ht
+      cases hto : c.topic with
+      | none => rw [hto] at ht; cases ht
+      | some tt =>
+        rw [hto] at ht; cases ht
+        exact ⟨hc.2.1 tt hto, clean_nil⟩
+  exact key _ _ (fun _ h => h) cleanMap_nil
+
+
+/-- every handler maps a clean context to a clean context, given the clean command fields -/
+theorem cc_dispatch {cfg : Cfg} {c : Nat} {msg : Message} {cmd : Command} {x : Ctx}
+    (hcfg : CleanCfg cfg) (hm : CleanMsg msg) (hcmd : CleanCmd cmd) (hx : CleanCtx x) :
+    CleanCtx (dispatch cfg c msg cmd x) := by
+  have hcl := cc_clientName hx c
+  cases cmd <;> simp only [dispatch, CleanCmd] at hcmd ⊢
+  case CAP => exact cc_processCap hcfg hcmd hx
+  case AUTHENTICATE => exact cc_processAuthenticate hcfg hx
+  case PASS => exact cc_processPass hcfg hcmd hx
+  case NICK => exact cc_processNick hcfg hcmd hm hx
+  case USER => exact cc_processUser hcfg hcmd.1 hcmd.2.2.2 hx
+  case PING => exact cc_processPing hcfg hcmd hx
+  case PONG => exact cc_processPong hx
+  case OPER => exact cc_processOper hcfg hx
+  case QUIT => exact cc_processQuit hcfg hx
+  case JOIN => exact cc_processJoin hcfg hcmd.1 hx
+  case PART => exact cc_processPart hcfg hcmd.1 hcmd.2 hx
+  case TOPIC => exact cc_processTopic hcfg hcmd.1 hcmd.2 hm hx
+  case NAMES => exact cc_processNames hcfg hcmd hx
+  case LIST => exact cc_processList hcfg hcmd.1 hx
+  case INVITE => exact cc_processInvite hcfg hcmd.1 hcmd.2 hm hx
+  case KICK => exact cc_processKick hcfg hcmd.1 hcmd.2.1 hcmd.2.2 hx
+  case MOTD => exact cc_processMotd hcfg hcl hx
+  case VERSION => exact cc_processVersion hcfg hx
+  case ADMIN => exact cc_processAdmin hcfg hx
+  case CONNECT => exact cc_unsupported hcfg hcl (by decide) hx
+  case LUSERS => exact cc_processLusers hcfg hcl hx
+  case TIME => exact cc_processTime hcfg hx
+  case STATS => exact cc_processStats hcfg hcmd.1 hx
+  case LINKS => exact cc_processLinks hcfg hx
+  case HELP => exact cc_processHelp hcfg hcmd hx
+  case INFO => exact cc_processInfo hcfg hx
+  case MODE => exact cc_processMode hcfg hcmd.1 hcmd.2 hx
+  case PRIVMSG => exact cc_processPrivmsgNotice hcfg hcmd.1 hcmd.2 hx
+  case NOTICE => exact cc_processPrivmsgNotice hcfg hcmd.1 hcmd.2 hx
+  case WHO => exact cc_processWho hcfg hcmd hx
+  case WHOIS => exact cc_processWhois hcfg hcmd.1 hcmd.2 hx
+  case WHOWAS => exact cc_processWhowas hcfg hcmd.1 hx
+  case KILL => exact cc_processKill hcfg hcmd.1 hcmd.2 hx
+  case REHASH => exact cc_unsupported hcfg hcl (by decide) hx
+  case RESTART => exact cc_unsupported hcfg hcl (by decide) hx
+  case SQUIT => exact cc_processSquit hcfg hcmd.1 hcmd.2 hx
+  case AWAY => exact cc_processAway hcfg hcmd hx
+  case USERHOST => exact cc_processUserhost hcfg hcmd hx
+  case WALLOPS => exact cc_processWallops hcfg hm hx
+  case ISON => exact cc_processIson hcfg hcmd hx
+  case DIE => exact cc_processDie hcfg hcmd hx
+
+/-- one received line: parse, command-error reply, registration gate, dispatch -/
+theorem cc_handleLine {cfg : Cfg} {c : Nat} {s : Str} {x : Ctx} (hcfg : CleanCfg cfg) (hs : Clean s)
+    (hx : CleanCtx x) : CleanCtx (handleLine cfg c s x) := by
+  have hcl := cc_clientName hx c
+  unfold handleLine
+  dsimp only
+  split
+  · exact hx
+  · exact cc_reply hcfg hx (by decide)
+  · exact cc_reply hcfg hx (by decide)
+  · rename_i msg hp
+    have hm := parse_cleanMsg hs hp
+    split
+    · rename_i e he
+      exact cc_reply hcfg hx (commandErrorReply_clean hcl (fromMessage_err hm he))
+    · rename_i cmd hc
+      have hcmd := fromMessage_ok hm hc
+      have hx' : CleanCtx (x.modifyW (fun w => bumpCount w cmd.id.index)) :=
+        cc_modifyW hx (bumpCount_clean hx.w _)
+      split
+      · exact cc_reply hcfg hx' (by simp [hcl])
+      · exact cc_dispatch hcfg hm hcmd hx'
+
+/-- `clean_step`: one operation keeps the world clean and emits only clean lines -/
+theorem step_clean {cfg : Cfg} {w : World} {e : Event} (hcfg : CleanCfg cfg) (hw : CleanWorld w)
+    (he : CleanEvent e) :
+    CleanWorld (step cfg w e).w ∧ CleanOuts (step cfg w e).outs := by
+  have hx0 : CleanCtx { w := w } := ⟨hw, cleanL_nil, by intro p h; cases h⟩
+  cases e with
+  | connect c ip =>
+    have hnew : CleanWorld { w with conns := w.conns ++ [Conn.new c ip], connsCount := w.connsCount + 1 } := by
+      refine ⟨hw.users, hw.channels, hw.wallops, hw.histories, ?_⟩
+      intro cn hcn
+      rcases List.mem_append.1 hcn with hcn | hcn
+      · exact hw.conns cn hcn
+      · simp only [List.mem_singleton] at hcn; subst hcn; exact Conn.new_clean c he
+    simp only [step]
+    repeat' split
+    all_goals first
+      | exact ⟨hw, cleanOuts_nil⟩
+      | exact ⟨hnew, cleanOuts_nil⟩
+  | line c s =>
+    simp only [step]
+    split
+    · exact ⟨hw, cleanOuts_nil⟩
+    · exact stepFinish_clean hcfg (cc_handleLine hcfg he hx0)
+  | tooLong c =>
+    simp only [step]
+    split
+    · exact ⟨hw, cleanOuts_nil⟩
+    · rename_i cn hcn
+      have hc := cw_conn? hw hcn
+      refine stepFinish_clean hcfg (cc_setConn (cc_reply hcfg hx0 ?_) ?_)
+      · simp [clientName_clean hc]
+      · exact hc.of_eq rfl rfl rfl rfl rfl rfl rfl
+  | badUtf8 c | eof c | reset c =>
+    simp only [step]
+    split
+    · exact ⟨hw, cleanOuts_nil⟩
+    · rename_i cn hcn
+      have hc := cw_conn? hw hcn
+      exact stepFinish_clean hcfg (cc_setConn hx0 (hc.of_eq rfl rfl rfl rfl rfl rfl rfl))
+  | partialLine c s =>
+    simp only [step]
+    split <;> exact ⟨hw, cleanOuts_nil⟩
+
+
+/-! ### runs -/
+
+theorem foldl_step_clean {cfg : Cfg} (hcfg : CleanCfg cfg) : ∀ {evs : List Event} {w : World},
+    CleanWorld w → (∀ e ∈ evs, CleanEvent e) →
+      CleanWorld (evs.foldl (fun w e => (step cfg w e).w) w)
+  | [], _, hw, _ => hw
+  | e :: evs, w, hw, he => by
+    simp only [List.foldl_cons]
+    exact foldl_step_clean hcfg (step_clean hcfg hw (he e (List.mem_cons_self ..))).1
+      (fun e' he' => he e' (List.mem_cons_of_mem _ he'))
+
+theorem run_clean {cfg : Cfg} (hcfg : CleanCfg cfg) {evs : List Event} (he : ∀ e ∈ evs, CleanEvent e) :
+    CleanWorld (run cfg evs) := by
+  unfold run
+  exact foldl_step_clean hcfg (init_clean hcfg) he
+
+/-! ### one line on the wire -/
+
+theorem splitOnChar_ne_nil (c : Char) : ∀ s : Str, splitOnChar c s ≠ []
+  | [] => by simp [splitOnChar]
+  | x :: xs => by
+    unfold splitOnChar
+    split
+    · simp
+    · split <;> simp
+
+theorem splitOnChar_clean_append {s : Str} (h : Clean s) (t : Str) :
+    splitOnChar nl (s ++ nl :: t) = s :: splitOnChar nl t := by
+  induction s with
+  | nil =>
+    simp only [List.nil_append]
+    conv => lhs; unfold splitOnChar
+    split
+    · rename_i heq; exact absurd heq (splitOnChar_ne_nil _ _)
+    · rename_i p ps heq; simp [heq]
+  | cons x xs ih =>
+    have hx := clean_cons.1 h
+    simp only [List.cons_append]
+    conv => lhs; unfold splitOnChar
+    rw [ih hx.2]
+    simp [hx.1]
+
+theorem splitOnChar_nl_eq {s : Str} (h : Clean s) : splitOnChar nl s = [s] := by
+  induction s with
+  | nil => simp [splitOnChar]
+  | cons x xs ih =>
+    have hx := clean_cons.1 h
+    unfold splitOnChar
+    rw [ih hx.2]
+    simp [hx.1]
 
 end Irc.C13H
